@@ -39,16 +39,12 @@ Definition arities (g : gobuiltin) : list (option nat) :=
 Definition row_any_arity (tbl : list brow) (name : string) : bool :=
   existsb (fun r => String.eqb (b_name r) name && match b_arity r with None => b_all r | Some _ => false end) tbl.
 
-(* known defect F2 (finding builtin-minmax-arity): min / max are handled for exactly two operands *)
-Definition known_exception (name : string) (a : option nat) : bool :=
-  (String.eqb name "min" || String.eqb name "max") && match a with Some 2 => false | _ => true end.
-
 Definition builtin_ok (handled : list (string * option nat)) (tbl : list brow) (g : gobuiltin) : bool :=
   negb (g_value g) || negb (data_builtin (g_name g)) ||
   forallb (fun a =>
     match a with
-    | Some n => negb (is_handled handled (g_name g) n) || some_row_transfers_all tbl (g_name g) n || known_exception (g_name g) a
-    | None => negb (is_handled handled (g_name g) 5) || row_any_arity tbl (g_name g) || known_exception (g_name g) a
+    | Some n => negb (is_handled handled (g_name g) n) || some_row_transfers_all tbl (g_name g) n
+    | None => negb (is_handled handled (g_name g) 5) || row_any_arity tbl (g_name g)
     end) (arities g).
 
 (* every value-returning builtin of the language is known to the table's classification *)
